@@ -102,7 +102,7 @@ def real_outcome(text=None, path=None, budget=5):
 # ----------------------------------------------------------------------------------------
 #  well-formed files: an abstract election, a rendering with layout choices, and what it denotes
 # ----------------------------------------------------------------------------------------
-NAMEPOOL = ['Ann', 'Bob Lee', 'Cid/*x*/Q', 'D#e', 'Éve Ünal', 'F [g]', 'Γιώργος', '(H)', 'I=J', '0', '-1', 'K.']
+NAMEPOOL = ['Ann', 'Bob Lee', 'Cid/*x*/Q', 'D#e', 'Éve Ünal', 'F [g]', 'Γιώργος', '(H)', 'I=J', '0', '-1', 'K.', 'Box #7 north', 'L /*m n', 'O */ p #q']
 
 
 def abstract_election(rng, maxc=6, nc=None):
@@ -145,10 +145,13 @@ def abstract_election(rng, maxc=6, nc=None):
             lines[0]['m'] = len(elig) + 2
             lines[0]['ranks'] = [[c] for c in elig]
     tie = rng.sample(cands, nc) if rng.random() < 0.5 else None
-    nicks = ['n%s%d' % (chr(97 + c % 26), c) for c in cands] if rng.random() < 0.4 else None
+    nicks = None
+    if rng.random() < 0.4:
+        nicks = rng.choice([['n%s%d' % (chr(97 + c % 26), c) for c in cands], ['n%s%d' % (chr(97 + c % 26), c) for c in cands],
+                            ['0_%d' % (nc + 1 - c) for c in cands], ['+%d' % (c % nc + 1) for c in cands], ['%dx' % (c % nc + 1) for c in cands]])
     names = [rng.choice(NAMEPOOL) + ' %d' % c if rng.random() < 0.5 else 'c%d' % c for c in cands]
     e = dict(nc=nc, seats=seats, wd=wd, und=und, lines=lines, tie=tie, nicks=nicks, names=names,
-             title=rng.choice(['T', 'An Election', 'Élection /* not a comment */ 2010', 'T # x']),
+             title=rng.choice(['T', 'An Election', 'Élection /* not a comment */ 2010', 'T # x', 'Ward 7 #2 /*x count']),
              source=rng.choice([None, 'src', 'a source']), comment=None, droop=rng.choice([[], [], ['arithmetic=fixed', 'precision=4']]))
     if e['source'] and rng.random() < 0.5:
         e['comment'] = rng.choice(['c', 'a comment here'])
@@ -225,13 +228,19 @@ def render_wf(rng, e):
         if rng.random() < 0.15:
             s += ' # trailing 9 9 0' + rng.choice(['\n', '\n', '\r\n', '\r', '\x0c', '\x85', '\u2028', '\x1c'])
     s += sep() + '0'
+
+    def q(x):
+        "a quoted string; its inner blanks may be line breaks (the reader joins the words with single blanks)"
+        if rng.random() < 0.3:
+            x = ''.join(rng.choice(['\n', ' \n', ' ']) if ch == ' ' else ch for ch in x)
+        return '"%s"' % x
     for n in e['names']:
-        s += sep() + '"%s"' % n
-    s += sep() + '"%s"' % e['title']
+        s += sep() + q(n)
+    s += sep() + q(e['title'])
     if e['source']:
-        s += sep() + '"%s"' % e['source']
+        s += sep() + q(e['source'])
         if e['comment']:
-            s += sep() + '"%s"' % e['comment']
+            s += sep() + q(e['comment'])
     s += rng.choice(['', '\n', '\n trailing junk 1 2 3', ' # end'])
     return s
 
